@@ -236,8 +236,9 @@ func scalarMulVecGeneric(res, a Vector, b *{{.ElementName}}) {
 	if len(a) != len(res) {
 		panic("vector.ScalarMul: vectors don't have the same length")
 	}
+	bCopy := *b // b may point to an element of res
 	for i := 0; i < len(a); i++ {
-		res[i].Mul(&a[i], b)
+		res[i].Mul(&a[i], &bCopy)
 	}
 }
 
